@@ -117,11 +117,12 @@ def find_function(relpath, anchor, ordinal=0, nmatches=None):
     text = blank_comments(raw)
     cands = []
     for m in re.finditer(anchor, text, re.M):
-        # walk to first '{' or ';' at paren depth 0
-        j = m.end()
+        # walk to first '{' or ';' at paren depth 0 (the anchor itself may already contain the opening brace)
+        j = m.start()
         depth = 0
         n = len(text)
         found = None
+        past_anchor = False
         while j < n:
             c = text[j]
             if c == '"' or c == "'":
@@ -131,7 +132,7 @@ def find_function(relpath, anchor, ordinal=0, nmatches=None):
                 depth += 1
             elif c == ')':
                 depth -= 1
-            elif depth == 0 and c == ';':
+            elif depth == 0 and c == ';' and j >= m.end():
                 break
             elif depth == 0 and c == '{':
                 found = j
@@ -199,7 +200,7 @@ def find_braced(relpath, anchor, ordinal=0):
     if ordinal >= len(ms):
         raise ExtractionError("%s: anchor /%s/ matched %d times" % (relpath, anchor, len(ms)))
     s = ms[ordinal].start()
-    b = text.find('{', ms[ordinal].end() - 1)
+    b = text.find('{', ms[ordinal].start())
     if b < 0:
         raise ExtractionError("%s: no '{' after /%s/" % (relpath, anchor))
     close = match_close(text, b)
@@ -323,6 +324,8 @@ class Rules:
             text = self.sub('R3', r'\b(?:const\s+)?auto\s*&?\s*(?=[A-Za-z_]\w*\s*=)', '__auto_type ', text)
         if 'R12' not in skip:
             text = self.sub('R12', r'\bnullptr\b', 'NULL', text)
+        if 'R14' not in skip:
+            text = self.r_decl_in_while(text)
         if 'R19' not in skip:
             text = self.r_forever(text)
         if 'R17' not in skip:
@@ -333,6 +336,28 @@ class Rules:
             while prev != text:
                 prev = text
                 text = self.sub('R17', r'\b([A-Za-z_]\w*)::([A-Za-z_]\w*)', r'\1_\2', text)
+        return text
+
+    def r_decl_in_while(self, text):
+        # R14: while (T x = e) { B }  ->  while (vp_one) { T x = e; if (!x) break; B }
+        n_f = 0
+        pos = 0
+        while True:
+            m = re.compile(r'\bwhile\s*\(\s*((?:const\s+)?[A-Za-z_]\w*(?:\s*\*)?)\s+([A-Za-z_]\w*)\s*=(?!=)').search(text, pos)
+            if not m:
+                break
+            po = text.index('(', m.start())
+            pc = match_close(text, po, '(', ')')
+            decl = text[po + 1:pc].strip()
+            k = pc + 1
+            while text[k] in ' \t\n':
+                k += 1
+            if text[k] != '{':
+                raise ExtractionError("R14: while with declaration but without braces")
+            text = text[:m.start()] + 'while (vp_one) { %s; if (!%s) break;' % (decl, m.group(2)) + text[k + 1:]
+            n_f += 1
+            pos = m.start() + 10
+        self._count('R14', n_f)
         return text
 
     def r_forever(self, text):
@@ -438,8 +463,10 @@ def insert_loop_contracts(body, loops):
             while body[k] in ' \t\n':
                 k += 1
             if body[k] != '{':
-                raise ExtractionError("do without braces")
-            bc = match_close(body, k)
+                # do stmt; while (...)
+                bc = body.index(';', k)
+            else:
+                bc = match_close(body, k)
             mw = re.compile(r'\s*while\s*\(').match(body, bc + 1)
             if not mw:
                 raise ExtractionError("do { } not followed by while")
